@@ -823,12 +823,13 @@ theorem sim_step (S : Setup o patches name G isGlobal ls order) (w : SWorld)
           (by simpa [List.append_assoc] using hd2)
         exact ⟨ra, hs1.trans (hs2.trans hs3), hr3⟩
     | switch_ op cases dflt dest =>
+      dsimp only
       rw [hb] at hdrop hreg hcl
       simp only [prepend, List.append_assoc] at hdrop hreg hcl
       obtain ⟨pc1, hs1, hd1⟩ := skip_marker aw ls o op hdrop
-      have hd1' : ls.drop (ACfg.pc { a with pc := pc1 }) = Line.switch_ op.lit :: _ := by
-        simpa using hd1
-      have hstep := astep_of_drop aw ls hd1'
+      rw [List.singleton_append] at hd1
+      have hd1' := hd1
+      have hstep := astep_of_drop aw ls (c := { a with pc := pc1 }) hd1'
       have hs2 : AStar aw ls (.next { a with pc := pc1 })
           (.next { a with pc := pc1 + 1, sw := op.lit }) := .step (by rw [hstep]; exact .refl _)
       obtain ⟨r, hs3, hm⟩ := case_block (aw := aw) (ls := ls) w gh op cases _
@@ -850,13 +851,14 @@ theorem sim_step (S : Setup o patches name G isGlobal ls order) (w : SWorld)
         obtain ⟨pc', rfl, hd2⟩ := hm
         cases dflt with
         | some d =>
-          simp only at hd2 hreg
+          simp only at hd2 hreg ⊢
           obtain ⟨ra, hs4, hr4⟩ := exit_sim (aw := aw) S hord (some d) (by
               intro d' hd; injection hd with hd; subst hd; exact hcl _ (by simp))
-            (fun d hd => hreg d (by simp [hd])) ⟨pc', a.h, a.regs, op.lit⟩ gh hh hd2
-          exact ⟨ra, hs1.trans (hs2.trans (hs3.trans hs4)), hr4⟩
+            (fun d hd => hreg d (by simp [hd])) ⟨pc', a.h, a.regs, op.lit⟩ gh hh
+            (by simpa [List.append_assoc] using hd2)
+          exact ⟨ra, hs1.trans (hs2.trans (hs3.trans hs4)), by simpa [goto] using hr4⟩
         | none =>
-          simp only at hd2 hreg
+          simp only at hd2 hreg ⊢
           by_cases hlast : dest = none ∧ rest.head? = none
           · exfalso
             obtain ⟨rfl, hrest⟩ := hlast
@@ -866,7 +868,8 @@ theorem sim_step (S : Setup o patches name G isGlobal ls order) (w : SWorld)
           · rw [if_neg hlast] at hd2 hreg
             obtain ⟨ra, hs4, hr4⟩ := exit_sim (aw := aw) S hord dest (by
                 intro d' hd; subst hd; exact hcl _ (by simp))
-              (fun d hd => hreg d (by simp [hd])) ⟨pc', a.h, a.regs, op.lit⟩ gh hh hd2
+              (fun d hd => hreg d (by simp [hd])) ⟨pc', a.h, a.regs, op.lit⟩ gh hh
+              (by simpa [List.append_assoc] using hd2)
             exact ⟨ra, hs1.trans (hs2.trans (hs3.trans hs4)), hr4⟩
 
 end Sim
